@@ -3,8 +3,8 @@
 NAME="$1"; shift
 git -C /repo apply /verif/seeded/$NAME/patch.diff || { echo "apply failed"; exit 2; }
 for P in "$@"; do
-  python3 /verif/tool/check.py $P > /tmp/seed_check_$NAME_$P.log 2>&1; rc=$?
-  echo "== $NAME on $P: exit $rc"; grep -E "^(VIOLATION|FAILED-OBLIGATION|INCONCLUSIVE|PASS|KNOWN)" /tmp/seed_check_$NAME_$P.log | cut -c1-260
+  python3 /verif/tool/check.py $P > /tmp/seed_check_${NAME}_${P}.log 2>&1; rc=$?
+  echo "== $NAME on $P: exit $rc"; grep -E "^(VIOLATION|FAILED-OBLIGATION|INCONCLUSIVE|PASS|KNOWN)" /tmp/seed_check_${NAME}_${P}.log | cut -c1-260
 done
 git -C /repo checkout -- .
 git -C /repo status --short | head -3
